@@ -82,6 +82,9 @@ pub fn run(opts: &Opts, rep: &mut Report) {
         let s = gen_string(&mut rng);
         let case_id = format!("{}:{}:{}", opts.seed, opts.shard, idx);
         rep.count("cases");
+        let buf_ref = &mut buf;
+        crate::refm::guard_case(rep, "C17", &case_id.clone(), move |rep| {
+        let buf = buf_ref;
         let exp = expected(&s);
         let should_be_ascii = s.is_ascii() && !s.contains("\r\n");
         let all: Vec<char> = s.chars().collect();
@@ -137,7 +140,7 @@ pub fn run(opts: &Opts, rep: &mut Report) {
         if rng.coin() {
             buf.clear();
         }
-        let c6 = Utf32Str::new(&s, &mut buf);
+        let c6 = Utf32Str::new(&s, buf);
         for (name, c) in [("String", &c2), ("Box<str>", &c3), ("Cow::Borrowed", &c4), ("Cow::Owned", &c5)] {
             if *c != owned {
                 fail("constructors-disagree", format!("From<{name}> = {c:?}, From<&str> = {owned:?}"), rep);
@@ -208,5 +211,6 @@ pub fn run(opts: &Opts, rep: &mut Report) {
         if let Some(r) = bad_slice {
             fail("slice-differs", r, rep);
         }
+        });
     }
 }
